@@ -1,13 +1,19 @@
 """C07 — retry building blocks obey their algebra and bounds."""
 from __future__ import annotations
 
-from .. import policy
+from .. import c07_tree, policy
 from ..runner import Env, Outcome
 
 THEOREMS = ["C07_source_shape", "C07_retry_any_is_or", "C07_retry_all_is_and", "C07_stop_any_is_or", "C07_stop_all_is_and",
             "C07_operators", "C07_wait_combine_is_sum", "C07_wait_plus", "C07_fixed", "C07_exponential_bounds",
             "C07_incrementing_bounds", "C07_random_bounds", "C07_exp_jitter_bounds", "C07_random_exp_bounds",
-            "C07_chain_bounds", "C07_combine_nonneg", "C07_deterministic"]
+            "C07_chain_bounds", "C07_combine_nonneg", "C07_deterministic",
+            # nested part (WfModel/RpTree.lean)
+            "C07_retry_tree_is_formula", "C07_stop_tree_is_formula", "C07_flatten", "C07_operator_chains",
+            "C07_operand_order_irrelevant", "C07_builtin_sum", "C07_wait_tree_bounds", "C07_bounds_attained",
+            "C07_next_delay_bounded", "C07_next_some_iff", "C07_jitter_free_ignores_seed", "C07_monotone_in_attempts",
+            "C07_ctor_shape", "C07_documented_defaults", "C07_default_policy", "C07_constant_delay_policy",
+            "C07_exp_backoff_policy", "C07_aliases"]
 LEAN_TARGETS = ["WfProps.C07"]
 EXPLANATION = (
     "The __call__ bodies of every wait/stop/retry building block are TRANSLATED from retry_policy.py into Lean "
@@ -16,13 +22,28 @@ EXPLANATION = (
     "re-proved against that. The hand-written parts (wait_chain index, composed next, operator sugar) are pinned by "
     "C07_source_shape. Correspondence: random two-level policies evaluated by the real classes and by the model on "
     "exact dyadic inputs (stubbed jitter draw), compared as exact rationals. Implementation-only extreme stream: huge "
-    "attempts/bases -> finite, within bounds, no exception, deterministic per seed, seed-dependent."
+    "attempts/bases -> finite, within bounds, no exception, deterministic per seed, seed-dependent. "
+    "Nested part: combinators take combinators as operands, so the model has TREES of any depth and arity (WfModel/RpTree.lean); "
+    "every retry/stop tree is the Boolean formula of its leaves, same-kind operands flatten, operator chains a|b|c / a&b&c / a+b+c and "
+    "Python's sum() are the n-ary combinator, operand order is irrelevant; every well-formed wait tree (chains and sums nested) stays in "
+    "its documented interval for all attempts and draws, the interval ends are attained, a delay returned by a composed policy lies in it; "
+    "jitter-free trees ignore the seed; exponential / incrementing delays never decrease with the attempt number. Constructor level: the "
+    "defaults of every constructor parameter, the __init__ bodies, the reflected operators and the function-style constructors "
+    "(retry_policy, ConstantDelayRetryPolicy, ExponentialBackoffRetryPolicy, wait_full_jitter, wait_none) are regenerated "
+    "(harness/gen/rp_ctors.py -> Gen.RPC) and pinned by C07_ctor_shape / C07_documented_defaults; the policies they build are proved to do "
+    "what their documentation says. Correspondence `rptree`: nested trees built with named constructors, operator chains, reflected "
+    "operators (plain callable on the left) and sum(), constructors with omitted arguments, the function-style constructors; the "
+    "documented interval computed by the harness is compared with the model's (tbounds) and checked on the implementation."
 )
 ASSUMPTIONS = [
     "float arithmetic is not modelled: exact rationals in Lean; the compared stream uses inputs on which every float operation is exact",
     "random.Random(seed).random() in [0,1) and uniform(a,b) = a + (b-a)*random() (CPython) are trusted",
     "exceptions are abstracted to ids; retry_if_exception_message / cause_type / user predicates are arbitrary Cond functions in the theorems",
     "fixed in this tree (F03, f30f2da): float overflow of exp_base**attempts saturates at max",
+    "trees: leaves are the built-in strategies / conditions; a user-defined callable as an operand is an arbitrary function in the flat theorems "
+    "(C07_flatten, C07_operator_chains, C07_operand_order_irrelevant, C07_builtin_sum) and outside the tree grammar of the bound theorems",
+    "Python's operator dispatch (`f + w` with a plain function f goes to w.__radd__(f); sum() starts from the int 0) is transcribed in pySum / the "
+    "chain definitions and exercised by the rptree stream, not derived",
 ]
 
 
@@ -34,4 +55,6 @@ def run(env: Env) -> Outcome:
     policy.extreme_and_seed_stream(env, out, env.budget(600, 12000))
     policy.algebra_stream(env, out, env.budget(1500, 30000))
     policy.units_stream(env, out, env.budget(150, 3000))
+    c07_tree.tree_stream(env, out, env.budget(2500, 40000))
+    c07_tree.tree_extreme_stream(env, out, env.budget(400, 8000))
     return out
